@@ -36,6 +36,10 @@ def run(ctx):
     r65(ctx, api)
     r66(ctx, api)
     from . import callsigs as _cs
+    from . import c20
+    c20.r202(ctx)
+    c20.r206(ctx)
+    c20.r201b(ctx)
     _cs.general_rules(ctx, 'R6', ['api.ParquetFile', 'api._pre_allocate', 'core.read_row_group', 'core.read_row_group_arrays'])
 
 
